@@ -95,6 +95,10 @@ ExclUnderDir(x, e) == Literal(x) /\ Len(x) < Len(e) /\ Pre(x, e)
 \* per seed, see Seed below)
 AllPaths(T) == T.files \cup Dirs(T)
 Eligible(T, root, hid) == {[e |-> e, file |-> e \in T.files] : e \in {e \in AllPaths(T) : Owned(T, root, e) /\ Visible(e, hid)}}
+\* HistoryFree: Must and May are functions of the case k (tree, package, patterns, hidden flag) alone: what glob() returns
+\* may not depend on glob() calls made earlier in the same package. The interpreter keeps one Globber (with a cache of
+\* directory walks) per BUILD file, so the binding repeats every case on a Globber that has already served a
+\* glob(["**"]) with the other `hidden` value and requires the same answer.
 Must(k) == {x.e : x \in {x \in k.elig :
               /\ x.file /\ Included(k, x.e, FALSE)
               /\ \A y \in k.exc : ~ExclDoc(y, x.e, TRUE) /\ ~ExclUnderDir(y, x.e)}}
